@@ -269,6 +269,8 @@ def oracle_case(ctx, case, stats):
 
 
 def run(ctx, model_ok=True):
+    if model_ok:
+        D.check_float_funs(ctx)
     units(ctx, model_ok)
     cases = gen_cases(ctx, ctx.n(12, 150), ctx.n(20, 200))
     # (b) whole runs, both classes against the model
